@@ -20,6 +20,12 @@ SPEC = {'level': 'exploration',
             gen('vh_c14', 'c14_overlay_tsan', 600, 60000, cfg='tsan', workers_quick=4, workers_thorough=8, min_cases_quick=200, replays_needed=2, replays_total=5,
                 rule='same target in the ThreadSanitizer build (any TSan report is a failure)')]}
 
+# VERIF_NO_TSAN=1 drops the ThreadSanitizer stages (used for sensitivity runs of mutants that only the differential/log oracle can see:
+# a header mutant would otherwise rebuild both trees)
+import os as _os
+if _os.environ.get('VERIF_NO_TSAN'):
+    SPEC['stages'] = [_st for _st in SPEC['stages'] if _st.get('cfg') != 'tsan']
+
 META = {'level_text': 'Generated block sequences (valid blocks and blocks with exactly one defect at a generated position) are validated by a real in-process regtest node under '
                'generated thread configurations (script-check workers x prevout fetchers in {0,1,2,3,4,8,16}^2, optional scheduler thread) with seeded yield injection, and '
                'under the serial configuration: verdict, reject category and hash_serialized after every block must agree. CoinsViewOverlay is additionally driven '
